@@ -70,6 +70,25 @@ def expand(f: Func, expr: ast.AST, depth: int = 4, _seen: frozenset = frozenset(
     return T().visit(clone(expr))
 
 
+def flow_values(f: Func, expr: ast.AST, at: int, depth: int = 4) -> list[tuple[ast.AST, int]]:
+    """[(expression, CFG node evaluating it)] that `expr`, read at CFG node `at`, may denote: a bare local whose
+    reaching definitions at `at` are all plain assignments / walruses (not the parameter value) is replaced by the
+    assigned expressions, each paired with its defining node, recursively (`tmp = <e>; return tmp` -> `<e>` at the
+    assignment).  The nodes returned are the original AST nodes (not copies)."""
+    if isinstance(expr, ast.Await):
+        return flow_values(f, expr.value, at, depth)
+    if isinstance(expr, ast.Name) and isinstance(expr.ctx, ast.Load) and depth > 0:
+        ds = reaching(f, expr.id, at)
+        if ds and "param" not in ds:
+            vals = [(def_value(f, expr.id, d), d) for d in ds]
+            if all(v is not None for v, _ in vals):
+                out = []
+                for v, d in vals:
+                    out.extend(flow_values(f, v, d, depth - 1))
+                return out
+    return [(expr, at)]
+
+
 def norm(f: Func, expr: ast.AST) -> str:
     return " ".join(unparse(expand(f, expr)).split())
 
